@@ -319,13 +319,19 @@ def _last_tempo(parts, default):
 
 
 def leak_free(score):
-    """The exclusion hypothesis of C05_mxl_cursor / C05_mxl_tempo: at every part boundary (and at the end of the
-    document) the parser's tempo state equals the tempo in force at time 0 of the first part."""
+    """The exclusion hypothesis of C05_mxl_cursor (Coq: leak_free): at every later part's opening the parser's tempo
+    state equals the tempo in force at time 0 of the first part."""
     ps = score['parts']
     if len(ps) <= 1:
         return True
     q0 = _initial_tempo(ps[0])
-    return all(_last_tempo(ps[:k], F(120)) == q0 for k in range(1, len(ps) + 1))
+    return all(_last_tempo(ps[:k], F(120)) == q0 for k in range(1, len(ps)))
+
+
+def leak_free_end(score):
+    """Coq: leak_free_end — the same at the end of the document (default tempo entry)."""
+    ps = score['parts']
+    return not ps or _last_tempo(ps, F(120)) == _initial_tempo(ps[0])
 
 
 def _expected_part(score, k, q0):
@@ -493,14 +499,16 @@ def oracle(case, io):
                         'expected': e['pitch'], 'got_unexpected_pitches': got_p[:4], 'part': e['part'], 'voice': e['voice']}
         return {'kind': 'pitch-wrong'}
     # --- onsets and durations at the tempo in force
+    leak = None
     bad = _note_mismatch(exp_notes, notes)
     if bad is not None:
         e, g = bad
         st_notes = [n for s in state for n in s['notes']]
-        if e['part'] > 0 and _note_mismatch(st_notes, notes) is None:
-            return {'kind': 'tempo-state-leaks-across-parts', 'what': 'note-times', 'part': e['part'],
+        if e['part'] > 0 and not leak_free(score) and _note_mismatch(st_notes, notes) is None:
+            leak = {'kind': 'tempo-state-leaks-across-parts', 'what': 'note-times', 'part': e['part'],
                     'expected': [float(e['start']), float(e['end'])], 'got': [g[5], g[6]]}
-        return {'kind': 'note-time-wrong', 'part': e['part'], 'voice': e['voice'], 'pitch': e['pitch'],
+        else:
+            return {'kind': 'note-time-wrong', 'part': e['part'], 'voice': e['voice'], 'pitch': e['pitch'],
                 'expected': [float(e['start']), float(e['end'])], 'got': [g[5], g[6]]}
     # --- tempo marks (the reader reports the first part's), at the times they occur; 120 when there is none
     exp_t = [[t, q] for t, q in exp[0]['tempos']] if parts else []
@@ -510,11 +518,12 @@ def oracle(case, io):
             return {'kind': 'tempo-marks-wrong', 'expected': [[float(a), float(b)] for a, b in exp_t], 'got': tempos}
     else:
         if not (len(tempos) == 1 and _close(tempos[0][0], 0.0) and _close(tempos[0][1], 120.0)):
-            if len(tempos) == 1 and _close(tempos[0][0], 0.0) and \
+            if len(tempos) == 1 and _close(tempos[0][0], 0.0) and not leak_free_end(score) and \
                     _close(tempos[0][1], float(_last_tempo(parts, F(120)))):
-                return {'kind': 'tempo-state-leaks-across-parts', 'what': 'default-tempo', 'part': 0,
-                        'expected': [[0.0, 120.0]], 'got': tempos}
-            return {'kind': 'tempo-marks-wrong', 'expected': [[0.0, 120.0]], 'got': tempos}
+                leak = leak or {'kind': 'tempo-state-leaks-across-parts', 'what': 'default-tempo', 'part': 0,
+                                'expected': [[0.0, 120.0]], 'got': tempos}
+            else:
+                return {'kind': 'tempo-marks-wrong', 'expected': [[0.0, 120.0]], 'got': tempos}
     # --- key signatures: tonic from <fifths> (sounding key when <transpose> follows in the measure), mode from <mode>
     # (times taken under the parser-state reading so that a tempo leak is reported once, as such)
     exp_k = _dedup([[x[0], x[1], x[2]] for s in state for x in s['keys']]) or [[F(0), 0, 0]]
@@ -535,7 +544,7 @@ def oracle(case, io):
         exp_s = _dedup([[x[0], x[1], x[2]] for s in state for x in s['times']])
         if not _same_times(exp_s, _merge_noise(tsigs)):
             return {'kind': 'time-signature-wrong', 'expected': [[float(a), b, c] for a, b, c in exp_s], 'got': tsigs}
-    return None
+    return leak
 
 
 def nontrivial(case, io):
